@@ -370,47 +370,41 @@ Section Soundness.
     - rewrite Sx, Sy. apply Permutation_app_head. unfold appends_of. apply Permutation_flat_map. exact P.
   Qed.
 
-  (** ** 4. the single return leaf of a search tree returns the same values for every entry *)
+  (** ** 4. the return leaves of a search tree (all returning the same expressions) return the same values for every entry *)
 
-  Lemma no_returns_no_return t en st : tree_returns t = [] -> eff_is_return (run_tree ev t en st) = false.
+  Lemma strs_eqb_eq a b : strs_eqb a b = true -> a = b.
   Proof.
-    revert en. induction t as [|m k v|s v|vs|a|x e t IH|c a IHa b IHb]; cbn [tree_returns run_tree]; intros en H;
-      try reflexivity; try discriminate.
-    - apply IH; exact H.
-    - apply app_eq_nil in H as [Ha Hb]. destruct (ev_truthy ev _); [apply IHa|apply IHb]; assumption.
+    revert b; induction a as [|x a IH]; intros [|y b] H; cbn in H; try discriminate; [reflexivity|].
+    apply andb_true_iff in H as [H1 H2]. apply String.eqb_eq in H1. subst. f_equal. auto.
   Qed.
 
-  Lemma single_return_same t (K : list string) (rs : list expr) st :
-    tree_returns t = [rs] ->
-    forallb (fun e => disjoint (e_reads e) K) rs = true ->
-    incl (tree_lets t) K ->
-    forall en en', (forall x, ~ In x K -> lookup x en = lookup x en') ->
-    forall vs vs', run_tree ev t en st = FReturn vs -> run_tree ev t en' st = FReturn vs' -> vs = vs'.
+  Lemma expr_eqb_eq a b : expr_eqb a b = true -> a = b.
   Proof.
-    intros R D. revert R.
+    destruct a as [t r c], b as [t' r' c']. unfold expr_eqb. cbn. intro H.
+    apply andb_true_iff in H as [H H3]. apply andb_true_iff in H as [H1 H2].
+    apply String.eqb_eq in H1. apply strs_eqb_eq in H2. apply strs_eqb_eq in H3. subst. reflexivity.
+  Qed.
+
+  Lemma exprs_eqb_eq a b : exprs_eqb a b = true -> a = b.
+  Proof.
+    revert b; induction a as [|x a IH]; intros [|y b] H; cbn in H; try discriminate; [reflexivity|].
+    apply andb_true_iff in H as [H1 H2]. apply expr_eqb_eq in H1. subst. f_equal. auto.
+  Qed.
+
+  (** a returned value list is [rs] evaluated in an environment that differs from the iteration's only at let-bound names *)
+  Lemma return_value t (K : list string) (rs : list expr) st :
+    (forall vs, In vs (tree_returns t) -> vs = rs) -> incl (tree_lets t) K ->
+    forall en vs, run_tree ev t en st = FReturn vs ->
+    exists en2, (forall x, ~ In x K -> lookup x en2 = lookup x en) /\ vs = map (fun e => ev_eval ev e en2 st) rs.
+  Proof.
     induction t as [|m k v|s v|us|a|x e t IH|c a IHa b IHb]; cbn [tree_returns tree_lets run_tree];
-      intros R L en en' A vs vs' F F'; try discriminate.
-    - inversion R; subst. inversion F; inversion F'; subst. apply map_ext_in. intros e I.
-      apply ev_law. intros y Iy. split; [|split; reflexivity]. apply A.
-      rewrite forallb_forall in D. eapply disjoint_spec; [apply D; exact I|exact Iy].
-    - eapply (IH R); [|  |exact F|exact F'].
-      + intros y Iy. apply L. right. exact Iy.
-      + intros y Ny. assert (y <> x) by (intro; subst; apply Ny, L; left; reflexivity).
-        rewrite !lookup_cons_ne by assumption. apply A. exact Ny.
-    - assert (La : incl (tree_lets a) K) by (intros y Iy; apply L, in_or_app; left; exact Iy).
-      assert (Lb : incl (tree_lets b) K) by (intros y Iy; apply L, in_or_app; right; exact Iy).
-      apply app_eq_unit in R as [[Ra Rb]|[Ra Rb]].
-      + (* the return leaf is in b: a never returns *)
-        destruct (ev_truthy ev (ev_eval ev c en st)).
-        * pose proof (no_returns_no_return a en st Ra) as X. rewrite F in X. discriminate.
-        * destruct (ev_truthy ev (ev_eval ev c en' st)).
-          -- pose proof (no_returns_no_return a en' st Ra) as X. rewrite F' in X. discriminate.
-          -- eapply (IHb Rb Lb); eauto.
-      + destruct (ev_truthy ev (ev_eval ev c en st)).
-        * destruct (ev_truthy ev (ev_eval ev c en' st)).
-          -- eapply (IHa Ra La); eauto.
-          -- pose proof (no_returns_no_return b en' st Rb) as X. rewrite F' in X. discriminate.
-        * pose proof (no_returns_no_return b en st Rb) as X. rewrite F in X. discriminate.
+      intros R L en vs F; try discriminate.
+    - inversion F. exists en. split; [reflexivity|]. rewrite (R us (or_introl eq_refl)). reflexivity.
+    - destruct (IH R (fun y Iy => L y (or_intror Iy)) _ _ F) as (en2 & A & E). exists en2. split; [|exact E].
+      intros y Ny. rewrite (A y Ny). apply lookup_cons_ne. intro; subst. apply Ny, L. left; reflexivity.
+    - destruct (ev_truthy ev (ev_eval ev c en st)).
+      + apply (IHa (fun vs I => R vs (in_or_app _ _ _ (or_introl I))) (fun y Iy => L y (in_or_app _ _ _ (or_introl Iy))) _ _ F).
+      + apply (IHb (fun vs I => R vs (in_or_app _ _ _ (or_intror I))) (fun y Iy => L y (in_or_app _ _ _ (or_intror Iy))) _ _ F).
   Qed.
 
   (** ** 5. soundness of [classify_tree] *)
@@ -448,14 +442,16 @@ Section Soundness.
   Lemma classify_search_inv kvar vvar ranged after t :
     classify_tree kvar vvar ranged after t = Some ShSearch ->
     has_leaf is_store t = false /\ has_leaf is_append t = false /\ has_leaf is_panic_leaf t = false /\
-    exists rs, tree_returns t = [rs] /\
+    exists rs, (forall vs, In vs (tree_returns t) -> vs = rs) /\
                forallb (fun e => disjoint (e_reads e) (kvar :: vvar :: tree_lets t)) rs = true.
   Proof.
     unfold classify_tree. intro C. destruct (tree_wf kvar vvar ranged t); [|discriminate]. cbn [negb] in C.
     destruct (has_leaf is_store t) eqn:LS, (has_leaf is_append t) eqn:LA, (has_leaf is_return t) eqn:LR,
       (has_leaf is_panic_leaf t) eqn:LP; cbn in C; classify_cases C.
-    destruct (tree_returns t) as [|rs [|? ?]] eqn:R; try discriminate.
-    destruct (forallb _ rs) eqn:D; [|discriminate]. repeat split; auto. exists rs. auto.
+    destruct (tree_returns t) as [|rs others] eqn:R; try discriminate.
+    destruct (forallb (exprs_eqb rs) others) eqn:Q; [|discriminate]. cbn [andb] in C.
+    destruct (forallb _ rs) eqn:D; [|discriminate]. repeat split; auto. exists rs. split; [|exact D].
+    intros vs [<-|I]; [reflexivity|]. rewrite forallb_forall in Q. symmetry. apply exprs_eqb_eq, Q, I.
   Qed.
 
   Lemma classify_collect_inv kvar vvar ranged after t s cmp :
@@ -469,7 +465,7 @@ Section Soundness.
       (has_leaf is_panic_leaf t) eqn:LP; cbn in C; classify_cases C.
     destruct (tree_writes t) as [|w ws] eqn:TW; [classify_cases C|].
     destruct (all_same (w :: ws)) eqn:AS; [|discriminate].
-    destruct after as [|[| | | | | | |s' bt|] rest]; try discriminate.
+    destruct after as [|[| | | | | | |s' bt| |] rest]; try discriminate.
     destruct (String.eqb w s') eqn:E; [|discriminate]. cbn [andb] in C.
     destruct (comparator_ok bt) eqn:CO; [|discriminate]. apply String.eqb_eq in E. inversion C; subst.
     repeat split; auto; eexists; eauto.
@@ -507,9 +503,13 @@ Section Soundness.
       pose proof (no_panic_leaf t (entry_env kvar vvar inv e) st LP) as X3.
       destruct (run_tree ev t (entry_env kvar vvar inv e) st); try discriminate; [left; reflexivity|right; eexists; reflexivity].
     - intros u v Iu Iv. apply effs_in in Iu as (e & _ & Fu). apply effs_in in Iv as (e' & _ & Fv).
-      eapply (single_return_same t (kvar :: vvar :: tree_lets t) rs st R D);
-        [intros y Iy; right; right; exact Iy| |symmetry; exact Fu|symmetry; exact Fv].
-      intros y Ny. unfold entry_env.
+      set (K := kvar :: vvar :: tree_lets t) in *.
+      assert (LK : incl (tree_lets t) K) by (intros y Iy; right; right; exact Iy).
+      destruct (return_value t K rs st R LK _ _ (eq_sym Fu)) as (e2 & A2 & ->).
+      destruct (return_value t K rs st R LK _ _ (eq_sym Fv)) as (e2' & A2' & ->).
+      apply map_ext_in. intros x Ix. apply ev_law. intros y Iy. split; [|split; reflexivity].
+      assert (Ny : ~ In y K) by (rewrite forallb_forall in D; eapply disjoint_spec; [apply D; exact Ix|exact Iy]).
+      rewrite (A2 y Ny), (A2' y Ny). unfold entry_env.
       assert (y <> kvar) by (intro; subst; apply Ny; left; reflexivity).
       assert (y <> vvar) by (intro; subst; apply Ny; right; left; reflexivity).
       rewrite !lookup_cons_ne by assumption. reflexivity.
